@@ -367,6 +367,11 @@ func famRestoreInflight(t *testing.T, seed int64, steps int) *Cluster {
 	if idx == 0 {
 		idx = 1
 	}
+	if seed%5 == 4 {
+		// an uncommitted membership change is outstanding: the Restore must be refused, without any effect
+		c.Member(L, "addnonvoter", "n9", 0, 0)
+		c.Settle("client")
+	}
 	rop := c.UserRestore(L, []string{fmt.Sprintf("u%d.1", seed), fmt.Sprintf("u%d.2", seed)}, idx, 1, 0)
 	c.Settle("client")
 	// the restore is processed locally; then the network heals before the leader's lease runs out (or after)
@@ -481,6 +486,26 @@ func famLeaseIso(t *testing.T, seed int64, steps int) *Cluster {
 		}
 	}
 	sort.Strings(voters)
+	if seed%4 >= 2 {
+		// a leadership transfer that fails (the target cannot be reached) and leaves L leader of the same term
+		v := voters[int(seed/4)%len(voters)]
+		c.isolate(v)
+		c.Apply(L, 0)
+		c.Settle("client")
+		c.Transfer(L, v)
+		c.Settle("client")
+		end := time.Now().Add(2 * opt.Election)
+		for time.Now().Before(end) {
+			c.DeliverAll(300)
+			c.Tick(2 * time.Millisecond)
+		}
+		c.healAll()
+		c.RunQuiet(80*time.Millisecond, 2*time.Millisecond)
+		if c.Leader() != L {
+			c.converge(500 * time.Millisecond)
+			return c
+		}
+	}
 	c.Rng.Shuffle(len(voters), func(i, j int) { voters[i], voters[j] = voters[j], voters[i] })
 	// cut the leader off from so many voters that it keeps (seed even) exactly one short of / (seed odd) exactly a majority
 	quorum := (len(voters)+1)/2 + 1
@@ -871,5 +896,110 @@ func famBarrierRace(t *testing.T, seed int64, steps int) *Cluster {
 	c.Settle("fsm")
 	c.Drive(200*time.Millisecond, nil, nil)
 	c.converge(400 * time.Millisecond)
+	return c
+}
+
+
+// famTransferHang: a leadership transfer to a caught-up target whose TimeoutNow never comes back (frozen peer): the
+// future must still be answered within about one election timeout (C17).
+func famTransferHang(t *testing.T, seed int64, steps int) *Cluster {
+	opt := DefaultOptions(seed)
+	opt.Family = "transferhang"
+	c := NewCluster(t, opt)
+	c.Bootstrap()
+	c.StartAll()
+	L := c.WaitLeader(2 * time.Second)
+	if L == "" {
+		return c
+	}
+	c.Apply(L, 0)
+	c.Settle("client")
+	c.Drive(100*time.Millisecond, nil, nil)
+	if c.Leader() != L {
+		c.converge(500 * time.Millisecond)
+		return c
+	}
+	var others []string
+	for _, id := range opt.Servers {
+		if id != L {
+			others = append(others, id)
+		}
+	}
+	T := others[int(seed)%len(others)]
+	holdTN := func(r *Rpc) bool { return r.Kind != "tn" }
+	var op *ClientOp
+	if seed%2 == 0 {
+		op = c.Transfer(L, T)
+	} else {
+		op = c.Transfer(L, "")
+	}
+	c.Settle("client")
+	c.Drive(4*opt.Election, holdTN, nil)
+	if op != nil {
+		c.Tr.Emit("assertdone", L, M{"op": op.ID, "kind": "transfer", "bound_us": (4 * opt.Election).Microseconds()})
+	}
+	if seed%3 == 0 {
+		// losing leadership releases it as well
+		c.isolate(L)
+		c.Drive(3*opt.Election, holdTN, nil)
+		c.healAll()
+	}
+	c.Drive(200*time.Millisecond, nil, nil)
+	c.converge(500 * time.Millisecond)
+	return c
+}
+
+// famNotifyShort: a server gains leadership while nobody reads its NotifyCh and loses it at once (a peer with a
+// higher term answers its first AppendEntries); the consumer comes back later: it must still see true, false (C18).
+func famNotifyShort(t *testing.T, seed int64, steps int) *Cluster {
+	opt := DefaultOptions(seed)
+	opt.Family = "notifyshort"
+	opt.NotifyBuf = int(seed % 2) // unbuffered, or one slot
+	opt.PreVoteOff = true          // an isolated server runs ahead in term
+	c := NewCluster(t, opt)
+	c.Bootstrap()
+	c.StartAll()
+	L0 := c.WaitLeader(2 * time.Second)
+	if L0 == "" {
+		return c
+	}
+	drain := func() {
+		for _, n := range c.Nodes {
+			for n.Up && c.ConsumeNotify(n.ID) {
+				c.Settle("consume")
+			}
+		}
+	}
+	c.Drive(60*time.Millisecond, nil, nil)
+	drain()
+	var others []string
+	for _, id := range opt.Servers {
+		if id != L0 {
+			others = append(others, id)
+		}
+	}
+	F, G := others[int(seed/2)%2], others[1-int(seed/2)%2]
+	// G is cut off and campaigns on its own: its term runs ahead
+	c.isolate(G)
+	c.Drive(6*opt.Election, nil, nil)
+	drain()
+	if c.Leader() != L0 {
+		c.healAll()
+		c.autoConsume = true
+		c.converge(500 * time.Millisecond)
+		return c
+	}
+	// leadership moves to F; nobody reads F's NotifyCh; G is back
+	c.Transfer(L0, F)
+	c.Settle("client")
+	c.healAll()
+	c.Drive(8*opt.Election, nil, nil)
+	// the consumers come back
+	for i := 0; i < 6; i++ {
+		drain()
+		c.Drive(30*time.Millisecond, nil, nil)
+	}
+	c.autoConsume = true
+	c.converge(500 * time.Millisecond)
 	return c
 }
